@@ -255,6 +255,8 @@ func vxNewHist(budget int) *vxHist {
 	vxAssume(h.txs[0].id != h.txs[1].id)
 	vxGuard("Client", "closed", "mux")
 	vxGuard("Client", "t", "mux")
+	vxGuard("Client", "rto", "@atomic")
+	vxGuard("Client", "maxAttempts", "@atomic")
 	h.active = true
 	return h
 }
